@@ -882,6 +882,10 @@ impl World {
                 out.push(Finding::new(&["C12"], "member.unclassified", format!("slot{slot}: after an evaluation member{m} is live={l} dead={d}")));
             }
         }
+        // the node itself is no subject of its own failure detector: never dead, never scheduled for deletion
+        if new.dead.contains(&me) || new.sched.contains(&me) {
+            out.push(Finding::new(&["C05", "C12"], "member.self_classified_dead", format!("slot{slot}: after an evaluation the node lists ITSELF as dead={} scheduled-for-deletion={}", new.dead.contains(&me), new.sched.contains(&me))));
+        }
         // dead/live members must be known
         for &m in new.live.iter().chain(new.dead.iter()) {
             if !new.copies.contains_key(&m) {
